@@ -138,7 +138,13 @@ func Rnd(rd *core.Rand) []byte { return rd.Bytes(96) }
 
 // Protect runs handler.protect through the run (implementation + model) and returns the produced value.
 func Protect(r *core.Run, kind string, kv *KV, m []byte) ([]byte, bool) {
-	out := r.Do(fmt.Sprintf("C01.handler.protect %s %s %s %s", kind, kv.Tokens(), core.Hex(m), core.Hex(Rnd(r.Rand))))
+	// two entry points make the same decision: EncryptWithHandler (translator) and the settings-driven
+	// EncryptWithClientID (SQL proxies); alternate between them
+	op := "C01.handler.protect"
+	if r.Rand.Bool() {
+		op = "C01.handler.protectcfg"
+	}
+	out := r.Do(fmt.Sprintf("%s %s %s %s %s", op, kind, kv.Tokens(), core.Hex(m), core.Hex(Rnd(r.Rand))))
 	if len(out) < 4 || out[:3] != "ok " {
 		return nil, false
 	}
